@@ -214,6 +214,18 @@ mod native {
     pub const MOMENT_TOL: f64 = 1e-8;
     pub const CDF_TOL: f64 = 2e-7;
 
+    /// ln(f64::MAX) = 709.78, ln(f64::MIN_POSITIVE) = -708.40
+    const LN_MAX_EDGE: f64 = 709.7;
+    const LN_MIN_EDGE: f64 = -708.0;
+
+    /// x with p·ln x = t for t on both sides of the order-free limit (700) up to the f64 range
+    fn power_edge_points(p: f64) -> Vec<f64> {
+        if !(p > 0.0) {
+            return Vec::new();
+        }
+        [680.0, 695.0, 699.5, 700.5, 703.0, 706.0, 708.5, 709.6].iter().map(|t| (t / p).exp()).filter(|x| x.is_finite()).collect()
+    }
+
     fn close_rel(got: f64, want: f64, tol: f64) -> (bool, f64) {
         let err = (got - want).abs();
         let bound = tol * want.abs() + 1e-300;
@@ -322,6 +334,12 @@ mod native {
         ref_ln: Box<dyn Fn(f64) -> f64>,
         /// logs of the individual textbook factors at x (representability filter)
         ln_factors: Box<dyn Fn(f64) -> Vec<f64>>,
+        /// logs of every intermediate result of the textbook formula evaluated as it is printed
+        /// (left to right, a quotient of products formed on its own): laws whose factors can come
+        /// within a factor e^10 of the f64 range inside the parameter grid of the quantifier
+        stages: Option<Box<dyn Fn(f64) -> Vec<f64>>>,
+        /// evaluation points aimed at the edge of the f64 range of a single power factor
+        edge_pts: Vec<f64>,
         cdf: Box<dyn Fn(f64) -> f64>,
         lo: f64,
         hi: f64,
@@ -372,6 +390,8 @@ mod native {
                     tmean: Some(a),
                     tvar: Some(b * b),
                     moments_reachable: true,
+                    stages: None,
+                    edge_pts: Vec::new(),
                 }
             }
             CLaw::Gamma => {
@@ -393,6 +413,12 @@ mod native {
                     tmean: Some(a / b),
                     tvar: Some(a / (b * b)),
                     moments_reachable: true,
+                    // β^α / Γ(α) · x^(α−1) · e^(−βx)
+                    stages: Some(Box::new(move |x| {
+                        let (s0, p, e) = (a * b.ln(), (a - 1.0) * x.ln(), -b * x);
+                        vec![s0, lg, s0 - lg, p, s0 - lg + p, e, s0 - lg + p + e]
+                    })),
+                    edge_pts: power_edge_points(a - 1.0),
                 }
             }
             CLaw::Beta => {
@@ -415,6 +441,12 @@ mod native {
                     tmean: Some(a / (a + b)),
                     tvar: Some(a * b / ((a + b) * (a + b) * (a + b + 1.0))),
                     moments_reachable: b >= 1.0,
+                    // x^(a-1) (1-x)^(b-1) / B(a,b), B(a,b) = Γ(a) Γ(b) / Γ(a+b)
+                    stages: Some(Box::new(move |x| {
+                        let (p, q) = ((a - 1.0) * x.ln(), (b - 1.0) * sp::log1p(-x));
+                        vec![p, q, p + q, la, lbb, la + lbb, lab, la + lbb - lab, p + q - (la + lbb - lab)]
+                    })),
+                    edge_pts: Vec::new(),
                 }
             }
             CLaw::Chi2 => {
@@ -439,6 +471,12 @@ mod native {
                     tmean: Some(k),
                     tvar: Some(2.0 * k),
                     moments_reachable: true,
+                    // 1 / (2^(k/2) Γ(k/2)) · x^(k/2−1) · e^(−x/2)
+                    stages: Some(Box::new(move |x| {
+                        let (n, p, e) = (h * ln2 + lg, (h - 1.0) * x.ln(), -x / 2.0);
+                        vec![h * ln2, lg, n, -n, p, p - n, e, p - n + e]
+                    })),
+                    edge_pts: power_edge_points(h - 1.0),
                 }
             }
             CLaw::T => {
@@ -462,6 +500,8 @@ mod native {
                     tmean: if nu >= 1.5 { Some(0.0) } else { None },
                     tvar: if nu >= 2.5 { Some(nu / (nu - 2.0)) } else { None },
                     moments_reachable: true,
+                    stages: None,
+                    edge_pts: Vec::new(),
                 }
             }
             CLaw::Pareto => {
@@ -483,6 +523,8 @@ mod native {
                     tmean: if al >= 1.5 { Some(al * xm / (al - 1.0)) } else { None },
                     tvar: if al >= 2.5 { Some(xm * xm * al / ((al - 1.0) * (al - 1.0) * (al - 2.0))) } else { None },
                     moments_reachable: true,
+                    stages: None,
+                    edge_pts: Vec::new(),
                 }
             }
             CLaw::Gumbel => {
@@ -506,6 +548,8 @@ mod native {
                     tmean: Some(a + b * EULER),
                     tvar: Some(std::f64::consts::PI * std::f64::consts::PI / 6.0 * b * b),
                     moments_reachable: true,
+                    stages: None,
+                    edge_pts: Vec::new(),
                 }
             }
             CLaw::Exponential => {
@@ -526,6 +570,8 @@ mod native {
                     tmean: Some(1.0 / a),
                     tvar: Some(1.0 / (a * a)),
                     moments_reachable: true,
+                    stages: None,
+                    edge_pts: Vec::new(),
                 }
             }
             CLaw::Uniform => {
@@ -546,6 +592,8 @@ mod native {
                     tmean: Some(0.5 * (a + b)),
                     tvar: Some((b - a) * (b - a) / 12.0),
                     moments_reachable: true,
+                    stages: None,
+                    edge_pts: Vec::new(),
                 }
             }
         })
@@ -564,6 +612,32 @@ mod native {
             let pos: f64 = f.iter().filter(|v| **v > 0.0).sum();
             let neg: f64 = f.iter().filter(|v| **v < 0.0).sum();
             pos <= 700.0 && (neg >= -700.0 || (self.ref_ln)(x) <= -700.0)
+        }
+        /// Edge of the f64 range. The order-free rule above stops a factor e^10 short of the range
+        /// on purpose; between there and the range itself a point is still judged when every
+        /// intermediate result of the textbook formula *as printed* is a finite normal f64 (log in
+        /// [-708, 709.7]; results may underflow when the density itself is below e^-700, where 0 is
+        /// the right answer to absolute 1e-300). Superset of `representable`.
+        fn representable_as_written(&self, x: f64) -> bool {
+            let st = match &self.stages {
+                Some(f) => f(x),
+                None => return false,
+            };
+            if st.iter().any(|v| v.is_nan()) {
+                return false;
+            }
+            st.iter().all(|v| *v <= LN_MAX_EDGE) && (st.iter().all(|v| *v >= LN_MIN_EDGE) || (self.ref_ln)(x) <= -700.0)
+        }
+        /// None = not judged; Some(false) = judged under the order-free rule; Some(true) = judged
+        /// only under the as-printed rule (regime `<law>:factor-edge`)
+        fn judged(&self, x: f64) -> Option<bool> {
+            if self.representable(x) {
+                Some(false)
+            } else if self.representable_as_written(x) {
+                Some(true)
+            } else {
+                None
+            }
         }
         fn inside(&self, x: f64) -> bool {
             x > self.lo && x < self.hi
@@ -637,6 +711,7 @@ mod native {
             inside.push(m.c - k * m.s);
         }
         inside.push(m.c);
+        inside.extend(m.edge_pts.iter().cloned());
         let mut boundary = Vec::new();
         let mut outside = Vec::new();
         if m.lo.is_finite() {
@@ -684,22 +759,28 @@ mod native {
 
         // (a) formula, non-negativity, ln_pdf at points of the support
         let mut formula_failures = 0u32;
+        let base_regime = regime;
+        let edge_regime = format!("{}:factor-edge", law);
         for &x in &inside {
-            if !m.representable(x) {
-                rep.note_add("skipped.points_with_unrepresentable_textbook_factor", 1.0);
-                continue;
-            }
-            rep.case(&regime);
+            let regime = match m.judged(x) {
+                None => {
+                    rep.note_add("skipped.points_with_unrepresentable_textbook_factor", 1.0);
+                    continue;
+                }
+                Some(false) => &base_regime,
+                Some(true) => &edge_regime,
+            };
+            rep.case(regime);
             let got = match guard(|| (m.pdf)(x)) {
                 Ok(v) => v,
                 Err(msg) => {
-                    rep.check("C02.pdf.no_panic", &regime, false, || json!({"setting": params, "x": x, "panic": msg}));
+                    rep.check("C02.pdf.no_panic", regime, false, || json!({"setting": params, "x": x, "panic": msg}));
                     continue;
                 }
             };
             let want = (m.ref_ln)(x).exp();
             // NaN is left to the formula check: this assertion is about the sign only
-            rep.check("C02.pdf.nonneg", &regime, !(got < 0.0), || json!({"setting": params, "x": x, "observed": jnum(got), "expected": want}));
+            rep.check("C02.pdf.nonneg", regime, !(got < 0.0), || json!({"setting": params, "x": x, "observed": jnum(got), "expected": want}));
             // conditioning: a log-space evaluation carries eps·(sum of |log factors|) whatever the code
             let tol = FORMULA_TOL + 16.0 * f64::EPSILON * (m.ln_factors)(x).iter().map(|v| v.abs()).sum::<f64>().min(3000.0);
             let (ok, ratio) = close_rel(got, want, tol);
@@ -709,7 +790,7 @@ mod native {
             if !ok {
                 formula_failures += 1;
             }
-            rep.check("C02.pdf.formula", &regime, ok, || json!({"setting": params, "x": x, "observed": jnum(got), "expected": want, "rel_tol": tol}));
+            rep.check("C02.pdf.formula", regime, ok, || json!({"setting": params, "x": x, "observed": jnum(got), "expected": want, "rel_tol": tol}));
             if got.is_finite() && got >= 1e-300 {
                 match guard(|| (m.ln_pdf)(x)) {
                     Ok(l) => {
@@ -719,26 +800,31 @@ mod native {
                         if err <= bound {
                             rep.note_max("worst_ratio.ln_pdf", err / bound);
                         }
-                        rep.check("C02.ln_pdf", &regime, err <= bound, || json!({"setting": params, "x": x, "ln_pdf": jnum(l), "ln(pdf)": lw, "pdf": got}));
+                        rep.check("C02.ln_pdf", regime, err <= bound, || json!({"setting": params, "x": x, "ln_pdf": jnum(l), "ln(pdf)": lw, "pdf": got}));
                     }
                     Err(msg) => {
-                        rep.check("C02.ln_pdf", &regime, false, || json!({"setting": params, "x": x, "panic": msg}));
+                        rep.check("C02.ln_pdf", regime, false, || json!({"setting": params, "x": x, "panic": msg}));
                     }
                 }
             }
         }
+        let regime = base_regime.clone();
         // (d) boundary: sane; strictly outside: exactly 0, no panic
         for &x in &boundary {
             // the constants of the formula must be representable for the boundary value to mean anything
             let nb = if x == m.lo { next_up(x) } else { next_down(x) };
-            if !m.representable(nb) {
-                rep.note_add("skipped.points_with_unrepresentable_textbook_factor", 1.0);
-                continue;
-            }
-            rep.case(&regime);
+            let regime = match m.judged(nb) {
+                None => {
+                    rep.note_add("skipped.points_with_unrepresentable_textbook_factor", 1.0);
+                    continue;
+                }
+                Some(false) => &base_regime,
+                Some(true) => &edge_regime,
+            };
+            rep.case(regime);
             let r = guard(|| (m.pdf)(x));
             let ok = matches!(r, Ok(v) if v >= 0.0);
-            rep.check("C02.boundary.sane", &regime, ok, || json!({"setting": params, "x": x, "observed": match &r { Ok(v) => jnum(*v), Err(e) => json!({"panic": e}) }, "expected": "no panic, not NaN, >= 0"}));
+            rep.check("C02.boundary.sane", regime, ok, || json!({"setting": params, "x": x, "observed": match &r { Ok(v) => jnum(*v), Err(e) => json!({"panic": e}) }, "expected": "no panic, not NaN, >= 0"}));
             // Ends that the library *documents* as belonging to the support (Uniform "[lower, upper]",
             // Beta "[0, 1]", Exponential "0 if x is negative", Pareto "0 if x < minval", ChiSquared
             // "non-negative x unless dof = 1") carry the textbook value there: the one-sided limit of
@@ -755,7 +841,7 @@ mod native {
                 // limit 0 (the end value must not exceed the inner one), increasing = singular (skipped)
                 let nb2 = x + 4.0 * (nb - x);
                 let (w1, w2) = ((m.ref_ln)(nb).exp(), (m.ref_ln)(nb2).exp());
-                if w1.is_finite() && w2.is_finite() && w1 < 1e200 && m.representable(nb2) {
+                if w1.is_finite() && w2.is_finite() && w1 < 1e200 && m.judged(nb2).is_some() {
                     let verdict = if (w1 - w2).abs() <= 1e-9 * w1 {
                         Some((got - w1).abs() <= 1e-6 * w1)
                     } else if w1 < w2 {
@@ -764,7 +850,7 @@ mod native {
                         None
                     };
                     if let Some(okv) = verdict {
-                        rep.check("C02.boundary.closed_end", &regime, okv, || json!({"setting": params, "x": x, "observed": jnum(*got), "formula_1ulp_inside": jnum(w1), "formula_4ulp_inside": jnum(w2)}));
+                        rep.check("C02.boundary.closed_end", regime, okv, || json!({"setting": params, "x": x, "observed": jnum(*got), "formula_1ulp_inside": jnum(w1), "formula_4ulp_inside": jnum(w2)}));
                     }
                 }
             }
@@ -789,10 +875,12 @@ mod native {
         }
         let bps = m.breakpoints();
         let nmom = 1 + m.tmean.is_some() as usize + (m.tmean.is_some() && m.tvar.is_some()) as usize;
-        if bps.iter().any(|&x| m.inside(x) && !m.representable(x)) {
+        if bps.iter().any(|&x| m.inside(x) && m.judged(x).is_none()) {
             rep.note_add("skipped.moment_integrals_unrepresentable_factor", 1.0);
             return;
         }
+        // integrals that run through the edge zone carry its label
+        let regime = if bps.iter().any(|&x| m.inside(x) && m.judged(x) == Some(true)) { edge_regime } else { regime };
         let tol = 1e-13;
         let mut fref = |x: f64| if m.inside(x) { (m.ref_ln)(x).exp() } else { 0.0 };
         let r0 = integrate(&mut fref, &bps, m.c, m.s, tol, nmom);
@@ -908,6 +996,77 @@ mod native {
             v.push(CSpec { law: CLaw::Uniform, a, b });
         }
         v
+    }
+
+    /// Settings whose textbook factors come close to the end of the f64 range on the inside: the
+    /// scale factor β^α (α·ln β up to ±709), Γ(α) up to α = 171.5, power factors x^(α−1) that
+    /// cross e^700..e^709.7 inside the bulk (slow rates), Beta shapes with α+β up to 171.6 in both
+    /// orders, χ² with many degrees of freedom. Every setting lies inside the parameter ranges of the
+    /// quantifier (rates 1e-3..1e3, dof <= 200); points are judged one by one by `CModel::judged`.
+    fn edge_grid() -> Vec<CSpec> {
+        let mut v = Vec::new();
+        let shapes = [20.0f64, 30.0, 45.0, 53.0, 58.0, 61.0, 65.0, 72.0, 80.0, 90.0, 101.0, 102.0, 110.0, 130.0, 142.0, 150.0, 160.0, 165.0, 170.0, 171.0, 171.5];
+        for &a in &shapes {
+            let mut rates = vec![1e-3, 1e-2, 0.1, 1.0, 7.0, 63.0, 1e2, 1e3];
+            for t in [-707.5f64, -703.0, -690.0, 690.0, 703.0, 707.5, 709.5] {
+                let b = (t / a).exp();
+                if (1e-3..=1e3).contains(&b) {
+                    rates.push(b);
+                }
+            }
+            for &b in &rates {
+                if let Some(s) = gamma_edge_ok(a, b) {
+                    v.push(s);
+                }
+            }
+        }
+        for &sum in &[143.0, 150.0, 160.0, 165.0, 168.0, 170.0, 170.9, 171.0, 171.2, 171.4, 171.55, 171.6] {
+            for &f in &[0.006, 0.03, 0.1, 0.25, 0.357, 0.45, 0.5] {
+                let (a, b) = (f * sum, sum - f * sum);
+                v.push(CSpec { law: CLaw::Beta, a, b });
+                if a != b {
+                    v.push(CSpec { law: CLaw::Beta, a: b, b: a });
+                }
+            }
+        }
+        for k in [120.0, 140.0, 160.0, 170.0, 180.0, 190.0, 195.0, 198.0] {
+            v.push(CSpec { law: CLaw::Chi2, a: k, b: 0.0 });
+        }
+        v
+    }
+
+    /// Gamma(a, b) if β^α and β^α/Γ(α) are finite normal numbers (otherwise no point can be judged)
+    fn gamma_edge_ok(a: f64, b: f64) -> Option<CSpec> {
+        let s0 = a * b.ln();
+        let lg = sp::lgamma(a);
+        if (LN_MIN_EDGE..=LN_MAX_EDGE).contains(&s0) && lg <= LN_MAX_EDGE && (LN_MIN_EDGE..=LN_MAX_EDGE).contains(&(s0 - lg)) {
+            Some(CSpec { law: CLaw::Gamma, a, b })
+        } else {
+            None
+        }
+    }
+
+    /// random settings of the same family (thorough tier)
+    fn edge_random(rng: &mut Rng) -> Option<CSpec> {
+        match rng.usize(0, 2) {
+            0 => {
+                let a = rng.range(20.0, 171.6);
+                let b = if rng.bool() {
+                    rng.log_range(1e-3, 1e3)
+                } else {
+                    // aim α·ln β at the last e^30 before either end of the range
+                    let t = rng.range(680.0, 709.7) * if rng.bool() { 1.0 } else { -1.0 };
+                    (t / a).exp().clamp(1e-3, 1e3)
+                };
+                gamma_edge_ok(a, b)
+            }
+            1 => {
+                let sum = if rng.bool() { rng.range(142.57, 171.62) } else { rng.range(168.0, 171.62) };
+                let f = rng.range(0.005, 0.995);
+                Some(CSpec { law: CLaw::Beta, a: f * sum, b: sum - f * sum })
+            }
+            _ => Some(CSpec { law: CLaw::Chi2, a: rng.int(100, 200) as f64, b: 0.0 }),
+        }
     }
 
     /// random settings inside the regimes of the quantifier (thorough tier)
@@ -1462,8 +1621,9 @@ mod native {
     // -----------------------------------------------------------------------------------------
 
     pub fn run(cfg: &Cfg, rep: &mut Report) {
-        rep.rule = "settings = fixed grid over every law x parameter regime of the quantifier (+ random settings inside the same regimes in the thorough tier); per setting: 41-point quantile ladder, centre, ±50/1e3/1e6 scale units, support ends ±1 ulp, points strictly outside; discrete laws: every count of the support (Poisson: 0..lambda+40 sqrt(lambda)+60) plus negative and too-large counts; MVN: random SPD covariance, dimension 1..6, points at 0..45 Mahalanobis radii. evaluations = point evaluations + one per moment check; distinct = distinct (law, parameters); all are non-trivial".into();
+        rep.rule = "settings = fixed grid over every law x parameter regime of the quantifier (+ random settings inside the same regimes in the thorough tier); per setting: 41-point quantile ladder, centre, ±50/1e3/1e6 scale units, support ends ±1 ulp, points strictly outside; discrete laws: every count of the support (Poisson: 0..lambda+40 sqrt(lambda)+60) plus negative and too-large counts; edge settings: Gamma shape 20..171.5 x rates 1e-3..1e3 and rates with α·ln β = ±690..709.5, Beta with α+β = 143..171.6 in both orders, χ² dof 120..198, plus points x with (shape−1)·ln x = 680..709.6 for every Gamma/χ² setting; MVN: random SPD covariance, dimension 1..6, points at 0..45 Mahalanobis radii. evaluations = point evaluations + one per moment check; distinct = distinct (law, parameters); all are non-trivial".into();
         rep.assume("pointwise formula checks are restricted to points where every partial product of the textbook factors is a representable f64 (DESIGN: 'combinations whose textbook factors are individually representable'); skipped points are counted in notes.skipped.*");
+        rep.assume("edge of the f64 range (regimes <law>:factor-edge, laws Gamma, Beta, ChiSquared): a point that fails the order-free rule only because a factor or partial product lies in the last e^10 of the range is still judged when every intermediate result of the textbook formula evaluated as printed (Gamma: β^α/Γ(α)·x^(α−1)·e^(−βx); Beta: x^(α−1)(1−x)^(β−1)/B, B = Γ(α)Γ(β)/Γ(α+β); χ²: 1/(2^(k/2)Γ(k/2))·x^(k/2−1)·e^(−x/2)) has its logarithm in [-708, 709.7] (underflow allowed when the density itself is below e^-700); beyond that range no textbook factor is an f64 and nothing is judged");
         rep.assume("mass/mean/var are integrated only when the pointwise formula check passed for the setting (a wrong pdf is already reported), when the moment is finite with tail exponent margin >= 1/2 (T dof >= 1.5/2.5, Pareto alpha >= 1.5/2.5) and the density is not singular at a non-zero support end (Beta with b < 1)");
         rep.assume("Normal sigma = 0, equal-bounds Uniform and NaN/inf parameters or arguments are outside the quantifier");
         rep.assume("tolerances: formula (1e-11 + 16 eps sum|log factors|) rel + 1e-300 abs; moments 1e-8 (mean relative to max(|mean|, sd)); Normal::cdf 2e-7 abs; MVN exp(1e-11 + 64 d eps cond_inf (1+q)) - 1 rel");
@@ -1484,6 +1644,12 @@ mod native {
         par_cases(cfg, rep, 3, normals.len(), |i, _rng, rep| run_normal_cdf(normals[i].0, normals[i].1, rep));
         let nm = cfg.pick(600, 6000, 2);
         par_cases(cfg, rep, 4, nm, |i, rng, rep| run_mvn(rng, 1 + i % 6, rep));
+        // factors next to the end of the f64 range
+        let mut egrid = edge_grid();
+        if lite {
+            egrid = egrid.into_iter().step_by(23).collect();
+        }
+        par_cases(cfg, rep, 7, egrid.len(), |i, _rng, rep| run_cont(&egrid[i], rep));
         if cfg.thorough() && !lite {
             par_cases(cfg, rep, 5, 6000, |_i, rng, rep| {
                 let s = cont_random(rng);
@@ -1496,12 +1662,17 @@ mod native {
                 let s = disc_random(rng);
                 run_disc(&s, rep);
             });
+            par_cases(cfg, rep, 8, 3000, |_i, rng, rep| {
+                if let Some(s) = edge_random(rng) {
+                    run_cont(&s, rep);
+                }
+            });
         }
         if !lite {
             for r in [
                 "normal", "gamma:shape<1", "gamma:shape=1", "gamma:shape>1", "beta:shape<1", "beta:shape=1", "beta:shape>1", "chi2:dof=1", "chi2:dof=2", "chi2:dof>2", "t", "pareto", "gumbel", "exponential", "uniform",
                 "poisson:lambda<=60", "poisson:lambda>60", "binomial:n<=67", "binomial:n>67", "binomial:k<0", "binomial:k>n", "bernoulli", "discreteuniform:even-sum", "discreteuniform:odd-sum",
-                "mvn:d=1", "mvn:d=2", "mvn:d=3", "mvn:d=4", "mvn:d=5", "mvn:d=6",
+                "mvn:d=1", "mvn:d=2", "mvn:d=3", "mvn:d=4", "mvn:d=5", "mvn:d=6", "gamma:factor-edge", "beta:factor-edge", "chi2:factor-edge",
             ] {
                 rep.require(r, 1);
             }
